@@ -107,6 +107,7 @@ def simulate(prop, cfg, ops=None, known=(), digest=False, want_trace=False, stat
     W.cur_sess = 0
     W.burst_left = 0
     W.recent_ns = []
+    W.last_touch = None
     W.corpus_loaded = False
     W.cfg = cfg
     state = {"collisions": []}
@@ -162,6 +163,8 @@ def simulate(prop, cfg, ops=None, known=(), digest=False, want_trace=False, stat
                 break
             signal.setitimer(signal.ITIMER_REAL, 0)
             exp = kobj.spec(pre, R, op, out)
+            if "p" in R and "c" in R and kobj.mutating:
+                W.last_touch = (op["s"], R["p"], R["c"])
             post = W.snapshot(op["s"])
             if op["k"] == "restart":
                 W.ids_seen.clear()
